@@ -1124,7 +1124,7 @@ fn gen_relayout_text(rng: &mut Rng, small: bool) -> Option<(String, BTreeSet<&'s
     for _ in 0..30 {
         let opts = GenOpts { use_scoped: rng.chance(60), allow_scan: rng.chance(70), stdlib: rng.chance(70), globals: rng.chance(60),
             shorthands: rng.chance(60), inherit: rng.chance(60), max_depth: if small { 1 } else { rng.range(1, 5) },
-            max_stanzas: if small { 1 } else { rng.range(1, 4) }, render_nodes: false, node_globals: 0, scoped_mut: false };
+            max_stanzas: if small { 1 } else { rng.range(1, 4) }, render_nodes: false, node_globals: 0, scoped_mut: false, syn_sets: true };
         let text = gen::gen_program(rng, &opts).text();
         if text.len() > MAX_TEXT { continue; }
         let toks = match tokens_of(&text) {
